@@ -525,7 +525,7 @@ func (s *Sim) Run(caller func()) (res Result) {
 		}
 		return res
 	}
-	maxEnabled, contended := 0, 0
+	maxEnabled, contended, mutexSpin := 0, 0, 0
 	defer func() { res.MaxEnabled = maxEnabled; res.Contended = contended }()
 	for {
 		s.opt.WaitQuiescent()
@@ -560,6 +560,23 @@ func (s *Sim) Run(caller func()) (res Result) {
 			continue
 		}
 		idle, quantum = 0, time.Millisecond
+		// every runnable goroutine is spinning on a mutex somebody else holds: with nobody
+		// else to run that is a deadlock, not a livelock
+		allBlocked := true
+		for _, a := range en {
+			if !strings.HasSuffix(a.site, ":blocked") {
+				allBlocked = false
+				break
+			}
+		}
+		if allBlocked {
+			mutexSpin++
+			if mutexSpin > 50*len(en) {
+				return finish("deadlock", "every runnable goroutine is waiting for a mutex that is never released")
+			}
+		} else {
+			mutexSpin = 0
+		}
 		if s.step >= s.opt.MaxSteps {
 			return finish("livelock", fmt.Sprintf("step budget %d exhausted", s.opt.MaxSteps))
 		}
